@@ -663,6 +663,10 @@ def run(ctx):
         'genes_at_a_time = 1 (the only value the property quantifies over)',
         'gene names are unique in the reference and in the query; the tree is a valid strict tree',
         'the tie order of np.argsort is not modelled: the chosen sequence is an input of the model',
+        'n_per_utility and its overrides are non-negative integers; one reference-marker file per call; '
+        'parent_list = all parents; drop_level = None',
+        'a table in which a gene marks one pair both ways is outside the quantifier (on it the code under-covers, as the '
+        'model predicts: Example ex_hypothesis_needed)',
     ]
     nf = ctx.n(160, 2400)
     done = 0
